@@ -608,7 +608,12 @@ class DateTime(Element):
 
             gmt_offset_hours = utils.TZS[tz_name]
 
-        return utils.gmt_offset(gmt_offset_hours, int(minutes or 0))
+        gmt_offset = utils.gmt_offset(gmt_offset_hours, int(minutes or 0))
+        if gmt_offset_hours == 0 and hours is not None and hours.startswith("-"):
+            # int("-0") loses the sign of offsets west of GMT by less than an
+            # hour e.g. [-0.30]
+            gmt_offset = -gmt_offset
+        return gmt_offset
 
     def normalize_to_gmt(self, value, gmt_offset):
         # Adjust timezone to GMT/UTC
